@@ -1170,7 +1170,8 @@ class TLSConnection(TLSRecordLayer):
                 "Server responded with unrequested NPN Extension"):
                 yield result
         if not serverHello.getExtension(ExtensionType.extended_master_secret)\
-            and settings.requireExtendedMasterSecret:
+            and settings.requireExtendedMasterSecret \
+            and real_version < (3, 4):
             for result in self._sendError(
                     AlertDescription.insufficient_security,
                     "Negotiation of Extended master Secret failed"):
